@@ -73,4 +73,8 @@ TEXTS["C15"] = {"engine": "attack", "design_ref": "§4 C15", "technique": "deter
     "level_text": "exploration: stream targeters hand out every target exactly once, unmixed, in an order consistent with real time, and report exhaustion to every later caller; the static targeter rotates evenly (each of k targets floor(n/k) or ceil(n/k) times, exact order when calls do not overlap); the -race build (hidden hand-offs) reports unsynchronised access",
     "level_note": _ATK_NOTE}
 
+TEXTS["C20"] = {"engine": "attack", "design_ref": "§4 C20", "technique": "deterministic scheduling of concurrent observers with breakpoints inside Observe and scrapes at arbitrary steps; reference sums as oracle; race build",
+    "level_text": "exploration: for every (method, url, status) the exported byte counters, histogram sample count/sum/cumulative buckets and the per-message failure counter equal direct sums over the observed results; every intermediate scrape is internally consistent. One genuine defect (failure counter never incremented) found and repaired",
+    "level_note": _ATK_NOTE}
+
 NOT_APPLICABLE = {}
